@@ -383,7 +383,100 @@ func c03Exec(c c03Case) (keys []string, detail string, class string) {
 	return keys, detail, class
 }
 
+// ---- sequences: a faulty response right after a delivery that failed half way through decoding ----
+
+// c03Seq: a "poison" delivery (a Response whose assertion carries everything the profile asks
+// for but then fails to decode: an unparsable AuthnInstant, SessionNotOnOrAfter, ProxyRestriction
+// Count or assertion IssueInstant; plain or encrypted, Response- or assertion-signed) is rejected;
+// the next delivery in the same process is a single-fault (or conforming) response, judged by
+// the same model as every other case: whatever the failed decode left behind must not stand
+// in for what the next message lacks.
+type c03Seq struct {
+	Seq    bool    `json:"sequence"`
+	Poison int     `json:"poison"`     // index into c03PoisonFaults
+	PCfg   int     `json:"poison_cfg"` // 0 response-signed, 1 assertion-signed, 6/7 the same encrypted
+	Target c03Case `json:"target"`
+}
+
+var c03PoisonFaults = []string{"AuthnInstant unparsable", "SessionNotOnOrAfter unparsable", "ProxyRestriction Count not a number", "assertion IssueInstant unparsable"}
+var c03PoisonCfgs = []int{0, 1, 6, 7}
+
+func c03SeqPoison(fault, cfg int) string {
+	spec := c03Spec(c03Dims{N: 1, A: [][4]int{{0, 0, 0, 0}}}, cfg)
+	a := &spec.Assertions[0]
+	a.ID, a.NameID = "_poison-assertion", evilName
+	switch fault {
+	case 0:
+		a.AuthnInstant = "yesterday"
+	case 1:
+		a.SessionNotOnOrAfter = "never"
+	case 2:
+		a.Proxy = &idp.ProxySpec{Count: "many"}
+	case 3:
+		a.IssueInstant = "yesterday"
+	}
+	enc := idp.RenderResponse(spec)
+	_, r := validateResponse(c03Conf(cfg).Build(), enc)
+	return fmt.Sprintf("accepted=%v err=%.80q", r.Accepted(), r.Err.Text)
+}
+
+func c03SeqTargets() []c03Case {
+	var out []c03Case
+	for _, cfg := range c03PoisonCfgs {
+		base := [4]int{0, 0, 0, 0}
+		out = append(out, c03Case{D: c03Dims{N: 1, A: [][4]int{base}}, Cfg: cfg})
+		for dim, n := range []int{6, 5, 6, 5} {
+			for v := 1; v < n; v++ {
+				a := base
+				a[dim] = v
+				out = append(out, c03Case{D: c03Dims{N: 1, A: [][4]int{a}}, Cfg: cfg})
+			}
+		}
+	}
+	return out
+}
+
+func c03SeqExec(q c03Seq) (keys []string, detail string) {
+	p := c03SeqPoison(q.Poison, q.PCfg)
+	k, d, _ := c03Exec(q.Target)
+	for _, x := range k {
+		keys = append(keys, strings.Replace(x, "C03/", "C03/after-a-delivery-that-failed-to-decode/", 1))
+	}
+	return keys, fmt.Sprintf("after a %s delivery with %s (%s): %s", c03CfgNames[q.PCfg], c03PoisonFaults[q.Poison], p, d)
+}
+
+func c03SeqRun(r *mc.Run) {
+	targets := c03SeqTargets()
+	n := 0
+	for pf := range c03PoisonFaults {
+		for _, pc := range c03PoisonCfgs {
+			for _, t := range targets {
+				if r.Expired() {
+					r.Cap("sequence phase stopped by deadline")
+					r.Set("poison_then_fault_sequences", n)
+					return
+				}
+				q := c03Seq{Seq: true, Poison: pf, PCfg: pc, Target: t}
+				keys, detail := c03SeqExec(q)
+				n++
+				r.Eval(3)
+				r.State(1)
+				r.Transition(3)
+				r.Bucket("sequence")
+				for _, k := range keys {
+					r.Violation(k, detail, q)
+				}
+			}
+		}
+	}
+	r.Set("poison_then_fault_sequences", n)
+}
+
 func c03Replay(raw json.RawMessage) ([]string, string) {
+	var q c03Seq
+	if json.Unmarshal(raw, &q) == nil && q.Seq {
+		return c03SeqExec(q)
+	}
 	var c c03Case
 	if err := json.Unmarshal(raw, &c); err != nil {
 		return nil, err.Error()
@@ -463,6 +556,7 @@ func c03Run(r *mc.Run) {
 			r.Violation(k, detail, c)
 		}
 	})
+	c03SeqRun(r)
 	stride := 3 // co-prime with the number of configurations: every configuration is visited
 	if r.Thorough() {
 		stride = 9
